@@ -446,6 +446,20 @@ func (d *dm) refreshAndCheck(where string, faulty bool) {
 			if h.Mutating && h.Proc != e.app.Name {
 				touch(h.Path)
 				touch(h.Path2)
+				if h.Op == "write" || strings.Contains(h.Op, "trunc") {
+					// modified in place while the scan may be reading it: a torn read
+					for i, dir := range d.dirs {
+						if filepath.Dir(h.Path) == dir {
+							if opts.TornPaths == nil {
+								opts.TornPaths = map[string]int{}
+							}
+							if i >= opts.TornPaths[h.Path] {
+								opts.TornPaths[h.Path] = i
+							}
+							e.r.Probe("in_place_write_inside_scan_window")
+						}
+					}
+				}
 			}
 		}
 		if len(opts.TolPaths) > 0 {
@@ -501,7 +515,12 @@ func (d *dm) refreshAndCheck(where string, faulty bool) {
 			return true
 		}
 		for _, u := range unscannable {
-			if p == u || strings.HasPrefix(p, u+"/") {
+			if p == u {
+				return true
+			}
+			// below a directory that cannot be scanned properly only Spec-named
+			// files may be reported; everything else is to be ignored
+			if ext := filepath.Ext(p); strings.HasPrefix(p, u+"/") && (ext == ".json" || ext == ".yaml") {
 				return true
 			}
 		}
